@@ -12,7 +12,12 @@ def mut(name, file, old, new, props): M.append((name, file, old, new, props))
 exec(open(os.path.join(os.path.dirname(__file__), "mutant_list.py")).read())
 
 def sh(cmd, **kw):
-    return subprocess.run(cmd, shell=True, env=ENV, capture_output=True, text=True, **kw)
+    try:
+        return subprocess.run(cmd, shell=True, env=ENV, capture_output=True, text=True, timeout=900, **kw)
+    except subprocess.TimeoutExpired as e:
+        class R: pass
+        r = R(); r.returncode = 124; r.stdout = (e.stdout or b"").decode() if isinstance(e.stdout, bytes) else (e.stdout or ""); r.stderr = "timeout"
+        return r
 
 def main():
     args = [a for a in sys.argv[1:] if not a.startswith("--")]
@@ -40,7 +45,7 @@ def main():
                 viol = [l for l in c.stdout.splitlines() if l.startswith("VIOLATION")]
                 res[p] = {"exit": c.returncode, "violations": len(viol), "s": round(time.time() - t0, 1)}
             caught = [p for p in props if res[p]["exit"] == 1]
-            print("%-40s tests_pass=%s caught_by=%s missed_by=%s" % (name, tests, caught, [p for p in props if p not in caught]))
+            print("%-40s tests_pass=%s caught_by=%s missed_by=%s" % (name, tests, caught, [p for p in props if p not in caught]), flush=True)
             with open("/verif/mutants/results.jsonl", "a") as f:
                 f.write(json.dumps({"mutant": name, "file": file, "tests_pass": tests, "results": res}) + "\n")
         finally:
